@@ -602,15 +602,19 @@ def run_forced(job):
     if err or ctl.dead:
         return {"error": err or ctl.dead}
     tidmap = {idents[i]: i for i in range(n)}
+    snap = snapshot(job, auto_obj, tidmap)
+    snap.update({"trace": ctl.trace, "results": results, "bad": bad, "idents_distinct": len(set(idents)) == n})
+    return snap
+
+
+def snapshot(job, auto_obj, tidmap):
+    """the final shared state in the model's layout"""
     fps, seen = fingerprints(job)
 
     def fpnum(key):
         if isinstance(key, tuple):
             key = "".join(key)
         return seen.get(key, 95)
-
-    def enc(c):
-        return c
 
     hheap = []
     for o in REG.hobjs:
@@ -628,6 +632,7 @@ def run_forced(job):
         cache = [[fpnum(k), REG.cons.get(id(v), 96)] for k, v in mem.items()]
         rheap.append([slots, cache])
     bythread = []
+    hards = None
     if auto_obj is not None:
         for k, v in dict.items(auto_obj._hyperoptimizers_by_thread):
             if isinstance(v, R.ReusableOptimizer):
@@ -635,17 +640,13 @@ def run_forced(job):
             else:
                 x = [REG.hnum(v)]
             bythread.append([tidmap.get(k, 94), x[0] if x else 93])
-    hards = None
-    if auto_obj is not None:
-        target = auto_obj
         hards = []
         for (i, o, s) in POOL:
             nn = len(i)
             kk = sum(len(t) for t in i) / nn
-            hards.append(bool(nn ** 2 * kk ** 0.5 >= target.optimal_cutoff))
-    return {"trace": ctl.trace, "results": results, "hheap": hheap, "rheap": rheap, "bythread": bythread,
-            "fps": fps, "hards": hards, "scores": REG.scores, "stops": REG.stops, "escores": REG.escores,
-            "bad": bad, "idents_distinct": len(set(idents)) == n}
+            hards.append(bool(nn ** 2 * kk ** 0.5 >= auto_obj.optimal_cutoff))
+    return {"hheap": hheap, "rheap": rheap, "bythread": bythread, "fps": fps, "hards": hards,
+            "scores": REG.scores, "stops": REG.stops, "escores": REG.escores}
 
 
 def run_seq(job):
@@ -722,9 +723,182 @@ def run_stress(job):
             "idents_distinct": True if serial else len(set(idents)) == len(idents)}
 
 
+# ---------------------------------------------------------------------------
+# NESTED queries: while the shared optimizer searches contraction A (cache miss) one of its trials asks THE SAME
+# optimizer object, on the same thread, about another contraction (the library does this: build_divide ->
+# contract_nodes(groups, optimize=super_optimize) -> find_path -> the preset's __call__)
+NEST = {"target": None, "inner_api": "path", "inner": [], "used": 0, "log": [], "bad": []}
+
+
+def _greedy_tree(inputs, output, size_dict):
+    ssa = PB.optimize_greedy(inputs, output, size_dict, use_ssa=True)
+    return ctg.ContractionTree.from_path(inputs, output, size_dict, ssa_path=ssa)
+
+
+def nest_direct_fn(inputs, output, size_dict, dummy=0, **kw):
+    """a trial function that, in the middle of its work, queries the shared optimizer about another contraction"""
+    if NEST["target"] is not None and getattr(TL, "depth", 0) == 0 and NEST["inner"]:
+        TL.depth = 1
+        saved = {k: getattr(TL, k, None) for k in ("autocompleted", "q", "ran", "in_reusable", "idx")}
+        try:
+            qb = NEST["inner"][NEST["used"] % len(NEST["inner"])]
+            NEST["used"] += 1
+            if NEST.get("record"):          # the nested query is virtual thread 1 of the recorded trace
+                TL.idx = 1
+                TL.q = qb
+                TL.in_reusable = False
+                yp(L_BEGIN)
+            try:
+                kind, val = ask(NEST["target"], NEST["inner_api"], qb)
+                msg = judge(kind, val, qb)
+                NEST["log"].append(qb)
+                if NEST.get("record"):
+                    NEST["results"].append([qb] + (classify(val) if kind == "tree" else classify_path(val, qb)))
+                if msg:
+                    NEST["bad"].append({"inner_query": qb, "what": "NESTED query got a wrong result: " + msg,
+                                        "got": describe(kind, val)})
+            except Exception as e:
+                NEST["log"].append(qb)
+                if NEST.get("record"):
+                    NEST["results"].append([qb, 9])
+                NEST["bad"].append({"inner_query": qb, "raised": repr(e)})
+        finally:
+            TL.depth = 0
+            for k, v in saved.items():
+                setattr(TL, k, v)
+    return _greedy_tree(inputs, output, size_dict)
+
+
+def block_partition(inputs, output, size_dict, parts=2, seed=None, **kw):
+    n = len(inputs)
+    return [min(parts - 1, (i * parts) // max(n, 1)) for i in range(n)]
+
+
+def nest_builder_fn(inputs, output, size_dict, dummy=0, **kw):
+    """the library's own nesting: PartitionTreeBuilder.build_divide contracts the groups with super_optimize =
+    the shared optimizer (object or preset name)"""
+    from cotengra.core import PartitionTreeBuilder
+    sup = NEST["target"] if NEST["target"] is not None else "greedy"
+    if getattr(TL, "depth", 0) > 0:
+        sup = "greedy"
+    TL.depth = getattr(TL, "depth", 0) + 1
+    try:
+        NEST["log"].append("builder")
+        return PartitionTreeBuilder(block_partition).build_divide(
+            inputs, output, size_dict, cutoff=4, parts=3, parts_decay=1.0, sub_optimize="greedy", super_optimize=sup,
+            random_strength=0.0, seed=0)
+    finally:
+        TL.depth -= 1
+
+
+class Recorder:
+    """a controller that never blocks: it only records (virtual thread, label) at every yield point.  Used for
+    NESTED runs on one real thread: virtual thread 0 = the outer queries, 1 = the nested ones (same thread id)"""
+
+    def __init__(self):
+        self.trace = []
+
+    def yield_point(self, label):
+        self.trace.append([getattr(TL, "idx", 0), label])
+
+
+_NEST_REGISTERED = []
+
+
+def run_nested_recorded(job):
+    """a nested history under the instrumentation of the forced runs; returns what run_forced returns, with the
+    nested queries as virtual thread 1 (for the model: a second thread with the SAME id)"""
+    global CTL, REG
+    REG = Registry()
+    load_pool(job)
+    if not _NEST_REGISTERED:
+        space = {"dummy": {"type": "INT", "min": 0, "max": 3}}
+        H.register_hyper_function("c16-nest-direct", nest_direct_fn, space)
+        H.register_hyper_function("c16-nest-builder", nest_builder_fn, space)
+        _NEST_REGISTERED.append(1)
+    target = make_target(job)
+    auto_obj = target if isinstance(target, P.AutoOptimizer) else None
+    api = job.get("api", "tree")
+    NEST.update(target=target, inner_api=api, inner=list(job.get("inner", [])), used=0, log=[], bad=[],
+                record=True, results=[])
+    rec = Recorder()
+    CTL = rec
+    TL.idx = 0
+    outer, bad = [], []
+    try:
+        for q in job["history"]:
+            TL.q = q
+            yp(L_BEGIN)
+            try:
+                kind, val = ask(target, api, q)
+            except Exception as e:
+                outer.append([q, 9])
+                bad.append({"thread": 0, "query": q, "raised": repr(e)})
+                continue
+            prov = classify(val) if kind == "tree" else classify_path(val, q)
+            outer.append([q] + prov)
+            msg = judge(kind, val, q)
+            if msg:
+                bad.append({"thread": 0, "query": q, "what": msg, "got": describe(kind, val), "provenance": prov})
+    finally:
+        CTL = None
+        TL.idx = None
+        inner_results = list(NEST.get("results", []))
+        inner_program = list(NEST["log"])
+        for b in NEST["bad"]:
+            bad.append(dict(b, thread=1, query=b["inner_query"]))
+        NEST.update(target=None, record=False)
+    snap = snapshot(job, auto_obj, {threading.get_ident(): 0})
+    snap.update({"trace": rec.trace, "results": [outer, inner_results], "bad": bad, "idents_distinct": True,
+                 "programs": [list(job["history"]), inner_program]})
+    return snap
+
+
+def run_nested(job):
+    load_pool(job)
+    if not _NEST_REGISTERED:
+        space = {"dummy": {"type": "INT", "min": 0, "max": 3}}
+        H.register_hyper_function("c16-nest-direct", nest_direct_fn, space)
+        H.register_hyper_function("c16-nest-builder", nest_builder_fn, space)
+        _NEST_REGISTERED.append(1)
+    target = make_target(job)
+    shared = target
+    if job.get("bound_preset"):
+        from cotengra.interface import register_preset
+        name = "c16-shared-%d" % len(_NEST_REGISTERED)
+        _NEST_REGISTERED.append(name)
+        register_preset(name, target, target.search, register_opt_einsum=False)
+        shared = name
+    NEST.update(target=shared, inner_api=job.get("inner_api", "path"), inner=list(job.get("inner", [])), used=0,
+                log=[], bad=[])
+    bad, got = [], []
+    try:
+        for step, q in enumerate(job["history"]):
+            api = job.get("api", "tree")
+            nlog = len(NEST["log"])
+            try:
+                kind, val = ask(shared, api, q)
+            except Exception as e:
+                import traceback
+                bad.append({"step": step, "query": q, "api": api, "raised": repr(e), "tb": traceback.format_exc()[-800:]})
+                got.append(None)
+                continue
+            msg = judge(kind, val, q)
+            got.append({"nested_calls": NEST["log"][nlog:], "content": tree_content(val) if kind == "tree" else -1})
+            if msg:
+                bad.append({"step": step, "query": q, "api": api, "what": msg, "got": describe(kind, val),
+                            "nested_queries_during_this_call": NEST["log"][nlog:]})
+        for b in NEST["bad"]:
+            bad.append(dict(b, step=-1, query=b["inner_query"]))
+    finally:
+        nested_total = len(NEST["log"])
+        NEST.update(target=None)
+    return {"bad": bad, "got": got, "nested_total": nested_total}
+
+
 def main():
     data = json.load(sys.stdin)
-    patch_needed = any(j["kind"] == "forced" for j in data["jobs"])
+    patch_needed = any(j["kind"] in ("forced", "nested_forced") for j in data["jobs"])
     if patch_needed:
         patch()
     out = []
@@ -734,6 +908,10 @@ def main():
                 out.append(run_forced(job))
             elif job["kind"] == "seq":
                 out.append(run_seq(job))
+            elif job["kind"] == "nested_forced":
+                out.append(run_nested_recorded(job))
+            elif job["kind"] == "nested":
+                out.append(run_nested(job))
             elif job["kind"] == "stress":
                 out.append(run_stress(job))
             else:
